@@ -791,7 +791,10 @@ class GeoMachine(Machine):
         bot = geo.layerlist[-1]
         th = (5.0, 10.0, 25.0)[ch[0] % 3]
         for k in range(1, 200):
-            name = geo.layer_name_from_number(k + ch[1] % 50)
+            try:
+                name = geo.layer_name_from_number(k + ch[1] % 50)
+            except self.mg.NamingConventionError:
+                return False          # more layers than the naming convention has names for
             if name not in geo.layer:
                 break
         else:
